@@ -420,6 +420,18 @@ def index_methods(ctx, case, dims, rng):
         mapping = {v: (v + 1) % 3 for v in vals}
         if rng.random() < 0.5:
             mapping.pop(x.common, None)          # a mapping that does not mention the common value
+        if rng.random() < 0.3:
+            # a mapping with a default factory (reading a key it lacks with [] would add the key to it)
+            import collections
+
+            mapping = collections.defaultdict(int, mapping)
+            ctx.count("class:mapping_is_a_defaultdict")
+        # re-indexing lets the mapping leave values out ("coords missing from the mapping keep their value"); the
+        # other mapped methods require every stored value in it, so only this one gets an incomplete mapping
+        rmapping = type(mapping)(mapping) if not hasattr(mapping, "default_factory") else type(mapping)(int, mapping)
+        if vals and rng.random() < 0.6:
+            rmapping.pop(vals[int(rng.integers(0, len(vals)))], None)
+        w.add("reindexed mapping", rmapping)
         prec = list(vals)[::-1]
         w.add("mask", mask)
         w.add("mapping", mapping)
@@ -429,7 +441,7 @@ def index_methods(ctx, case, dims, rng):
             ("to_dict", lambda: x.to_dict(True)), ("get", lambda: x.get((vals[0],) + (0,) * (len(x.shape) - 1), None, True)),
             ("items", lambda: list(x.items(True))), ("common_rowids", lambda: x.common_rowids(*((0,) if len(x.shape) > 1 else ()))),
             ("copy", lambda: x.copy()), ("filtered", lambda: x.filtered(mask, int(mask.sum()))),
-            ("reindexed", lambda: x.reindexed(mapping)), ("reindexed()", lambda: x.reindexed()),
+            ("reindexed", lambda: x.reindexed(rmapping)), ("reindexed()", lambda: x.reindexed()),
             ("slices1d", lambda: list(x.slices1d())), ("==", lambda: x == x.copy()), ("!=", lambda: x != x.copy()),
             ("validate", lambda: x.validate(True)), ("abscissae", lambda: (x.abscissae, x.sparsity, x.nbytes, x.size)),
             ("column_stack", lambda: column_stack([x, x], new_common=vals[-1])),
